@@ -57,15 +57,26 @@ struct Early {
         catch (...) { threw = true; snprintf(what, sizeof what, "unknown exception"); }
     }
 };
+#if defined(__has_feature)
+#if __has_feature(thread_sanitizer)
+#define VERIF_NO_STATIC_INIT_PROBE 1      // the ThreadSanitizer harness (C20) must not touch the library before its threads do: the probe would
+#endif                                     // initialise on the main thread everything that the threads are meant to use for the first time
+#endif
+#ifndef VERIF_NO_STATIC_INIT_PROBE
 __attribute__((init_priority(101))) Early g_early;
+#endif
 
 // "" or what differs; called by the engine before the first case
 inline std::string verdict() {
+#ifdef VERIF_NO_STATIC_INIT_PROBE
+    return std::string();
+#else
     if (g_early.threw) return std::string("a library call made during static initialisation (from the constructor of a global object) threw: ") + g_early.what;
     uint64_t now;
     try { now = digest(); } catch (...) { return "the static-initialisation probe calls throw when repeated from main()"; }
     if (now != g_early.d) return "a fixed set of library calls (conversions, case folding, comparison, search, slicing, formatting, codecs) made during static initialisation - from the constructor of a global object, before the library's own namespace-scope objects were initialised - gave results that differ from the same calls made later";
     return std::string();
+#endif
 }
 
 }  // namespace verif_probe
